@@ -47,6 +47,7 @@ pub fn run_world(
         }
         if prop == "C07" {
             w.rejoin_hygiene = false;
+            w.p_last_resort = (1, 4);
         }
         hooks.init(&mut w);
         let n0 = w.rng.range(2, cfg.max_members.min(8));
@@ -698,7 +699,16 @@ impl Hooks for C07 {
                     let after: usize = ids.iter().filter(|id| w.parties[j].stores.kp.has(id)).count();
                     w.out.cov.bump("key_package_consumption_checked");
                     w.out.cov.eval(Some(fnv(format!("kp|{before}|{after}").as_bytes())));
-                    if after + 1 != before {
+                    let last_resort = w.parties[j].joined_with_last_resort;
+                    if last_resort {
+                        w.out.cov.bump("joined_with_last_resort_key_package");
+                        if after != before {
+                            w.violate(
+                                "C07|last_resort_key_package_removed",
+                                format!("joiner {j}: {before} stored key packages before its first write, {after} afterwards, although the used one is marked last-resort"),
+                            );
+                        }
+                    } else if after + 1 != before {
                         w.violate(
                             "C07|used_key_package_not_removed",
                             format!("joiner {j}: {before} stored key packages before its first write, {after} afterwards (exactly the used one must disappear)"),
@@ -710,6 +720,7 @@ impl Hooks for C07 {
                         let t = (!w.cfg.ratchet_tree_extension).then(|| w.g(j).export_tree().into_owned());
                         w.out.cov.bump("negative:welcome_reused_after_write");
                         match guarded(|| c.join_group(t, wm, None).map(|_| ())) {
+                            Ok(Ok(())) if last_resort => w.out.cov.bump("last_resort_welcome_usable_again"),
                             Ok(Ok(())) => w.violate("C07|welcome_usable_twice", format!("joiner {j} joined again from the same Welcome after persisting its group")),
                             Ok(Err(_)) => {}
                             Err(p) => w.violate("C07|panic|welcome_reuse", p),
